@@ -218,10 +218,23 @@ class Tensor(Funsor, metaclass=TensorMeta):
         if not subs:
             return self
 
-        # Handle diagonal variable substitution
+        # Handle diagonal variable substitution, including renaming onto a
+        # name that is already used by another input of this tensor.
         var_counts = Counter(v for v in subs.values() if isinstance(v, Variable))
         subs = OrderedDict(
-            (k, self.materialize(v) if var_counts[v] > 1 else v)
+            (
+                k,
+                (
+                    self.materialize(v)
+                    if var_counts[v] > 1
+                    or (
+                        isinstance(v, (Variable, Slice))
+                        and v.name != k
+                        and v.name in self.inputs
+                    )
+                    else v
+                ),
+            )
             for k, v in subs.items()
         )
 
